@@ -528,7 +528,17 @@ pub fn judge(prop: &str, d: Option<&Driver>, names: &[String], policy: Policy, k
                             };
                             if let Some((clause, msg)) = verdict {
                                 let prop_static: &'static str = match prop { "C08" => "C08", "C09" => "C09", _ => "C12" };
-                                ev.failures.push(fail(prop_static, &format!("{clause}-after-clean-restart"), idx, format!("{what}, open, clean restart: {msg}")));
+                                // an embedded frame that shows only now: recovery itself wrote (its GC pass) at the point where
+                                // the damage made the log end early, over the beginning of what used to follow - the stale-tail
+                                // finding (K2), if the documented reader reaches it on the image recovery left behind
+                                let clause = if clause == "embedded-frame" {
+                                    w.close();
+                                    let now = w.image();
+                                    if embedded_frame_route(&now) == "via-trusted-length" && writer_resumed_at_documented_end(image, &now) { "embedded-frame-via-stale-tail".to_string() } else { "embedded-frame-via-other-route-after-clean-restart".to_string() }
+                                } else {
+                                    format!("{clause}-after-clean-restart")
+                                };
+                                ev.failures.push(fail(prop_static, &clause, idx, format!("{what}, open, clean restart: {msg}")));
                             }
                         }
                     }
@@ -716,7 +726,8 @@ pub fn damage_then(prop: &str, d: &Driver, case: &Case, image: &Image, ops: &[Da
             // continuation wrote over only the beginning of what used to follow
             let clause = if clause == "embedded-frame" {
                 cd.world.close();
-                if embedded_frame_route(&cd.world.image()) == "via-trusted-length" { "embedded-frame-via-stale-tail".to_string() } else { "embedded-frame-via-other-route-after-continuation".to_string() }
+                let now = cd.world.image();
+                if embedded_frame_route(&now) == "via-trusted-length" && writer_resumed_at_documented_end(&damaged, &now) { "embedded-frame-via-stale-tail".to_string() } else { "embedded-frame-via-other-route-after-continuation".to_string() }
             } else {
                 format!("{clause}-after-continuation")
             };
@@ -776,4 +787,48 @@ pub fn embedded_frame_route(after: &Image) -> &'static str {
         }
     }
     "via-other-route"
+}
+
+/// Where the documented frame reader (see `embedded_frame_route`) stops on this image: (file name, offset) of the
+/// first all-zero frame header, or the end of the last WAL file.
+pub fn documented_end_of_log(image: &Image) -> Option<(String, usize)> {
+    let files = crate::walparse::wal_files(image);
+    for (name, data) in &files {
+        for b in 0..data.len() / BLOCK {
+            let block = &data[b * BLOCK..(b + 1) * BLOCK];
+            let mut c = 0usize;
+            while BLOCK - c >= HDR {
+                let hdr = &block[c..c + HDR];
+                if hdr.iter().all(|&x| x == 0) {
+                    return Some((name.clone(), b * BLOCK + c));
+                }
+                let len = u16::from_le_bytes(hdr[4..6].try_into().unwrap()) as usize;
+                if !(1..=4).contains(&hdr[6]) || c + HDR + len > BLOCK {
+                    break;
+                }
+                c += HDR + len;
+            }
+        }
+    }
+    files.last().map(|(n, d)| (n.clone(), d.len()))
+}
+
+/// The stale-tail finding (K2) presupposes that the writer resumed where the documented reader stops on the damaged
+/// image. True if nothing before that point was overwritten between `before` (damaged image) and `after`.
+pub fn writer_resumed_at_documented_end(before: &Image, after: &Image) -> bool {
+    let Some((end_file, end_off)) = documented_end_of_log(before) else { return false };
+    for (name, data) in crate::walparse::wal_files(before) {
+        // files that recovery's GC has removed since cannot have been written over
+        if let Some(Node::File(now)) = after.get(&name) {
+            let limit = if name == end_file { end_off.min(data.len()) } else { data.len() };
+            let n = limit.min(now.len());
+            if data[..n] != now[..n] {
+                return false;
+            }
+        }
+        if name == end_file {
+            break;
+        }
+    }
+    true
 }
